@@ -419,6 +419,12 @@ func (en *Env) fieldOf(x Val, name string) Val {
 		}
 		if curPtr {
 			cur = en.ex.loadField(en.st, curT, f, cur.L[0])
+			// slice headers stored in the heap are well formed in every state
+			if _, isSl := f.Type().Underlying().(*types.Slice); isSl && len(cur.L) == 4 && en.ex.inQuant == 0 {
+				en.ex.assume("true", and(nonNeg(cur.L[2]), app("bvsle", cur.L[2], cur.L[3]), nonNeg(cur.L[1]),
+					app("bvult", cur.L[1], "#x0000100000000000"), app("bvult", cur.L[3], "#x0000100000000000"),
+					implies(eq(cur.L[0], "0"), eq(cur.L[3], bvLit(0, 64)))))
+			}
 		} else {
 			lo, hi := fieldRange(CS, idx)
 			cur = Val{T: f.Type(), L: cur.L[lo:hi]}
@@ -772,6 +778,10 @@ func (en *Env) callExpr(e *ECall) Val {
 			en.fail("len of %s", typeKey(x.T))
 		case "base":
 			x := en.eval(e.Args[0])
+			// every reference that exists in a state was allocated before it
+			if en.ex.inQuant == 0 && en.st != nil {
+				en.ex.assume("true", "(<= "+x.L[0]+" "+en.st.allocCtr+")")
+			}
 			return Val{T: types.Typ[types.UnsafePointer], L: []string{x.L[0]}}
 		case "off":
 			x := en.eval(e.Args[0])
@@ -983,6 +993,15 @@ func (en *Env) applyPred(pd *PredDef, args []Expr) Val {
 		}
 		if a.T == types.Typ[types.UntypedNil] {
 			a = zeroVal(T)
+		}
+		if _, isIface := a.T.Underlying().(*types.Interface); isIface && len(a.L) == 2 {
+			if _, toPtr := T.Underlying().(*types.Pointer); toPtr {
+				// interface argument for a pointer parameter: the payload (unique implementation, as in fieldOf)
+				if impl := en.ex.uniqueImpl(a.T); impl == nil || !types.Identical(impl, T) {
+					en.fail("pred %s: interface argument for parameter %s", pd.Name, p.Name)
+				}
+				a = Val{T: T, L: []string{a.L[1]}}
+			}
 		}
 		a.T = T
 		nv[p.Name] = a
